@@ -362,9 +362,11 @@ def pmap(fn, tasks, procs=None):
     return out
 
 
-def run_py(code, hashseed=None, timeout=600, args=()):
+def run_py(code, hashseed=None, timeout=600, args=(), env=None):
     """Runs `code` in a fresh interpreter bound to the working tree."""
     e = dict(os.environ)
+    if env:
+        e.update(env)
     if hashseed is not None:
         e['PYTHONHASHSEED'] = str(hashseed)
     e['PYTHONPATH'] = VERIF + os.pathsep + e.get('PYTHONPATH', '')
